@@ -109,8 +109,8 @@ def merge_shards(parts):
     return base
 
 
-def run_gosym(job, harness, tier, tmp, ovdir, solver="z3-new", shard=None):
-    out = os.path.join(tmp, f"res_{job['name']}_{harness}_{solver}_{shard[0] if shard else 0}.json")
+def run_gosym(job, harness, tier, tmp, ovdir, solver="z3-new", shard=None, nodom=False):
+    out = os.path.join(tmp, f"res_{job['name']}_{harness}_{solver}_{shard[0] if shard else 0}_{int(nodom)}.json")
     moddir = job.get("moddir", REPO)
     pkgdir = os.path.join(moddir, job["pkgdir"])
     lim = job.get("limits", {}).get(tier, {})
@@ -120,6 +120,8 @@ def run_gosym(job, harness, tier, tmp, ovdir, solver="z3-new", shard=None):
            "-query-timeout", str(60000 if tier == "quick" else 300000), "-witness", str(job.get("witness", 4))]
     if shard:
         cmd += ["-shard", f"{shard[0]}/{shard[1]}"]
+    if nodom:
+        cmd += ["-no-dom"]
     if job.get("assert_include"):
         cmd += ["-assert-include", job["assert_include"]]
     if job.get("assert_exclude"):
@@ -258,8 +260,30 @@ def main():
                     futs.append([ex.submit(run_gosym, job, h, tier, tmp, ov, "z3-new", (i, n)) for i in range(n)])
                 else:
                     futs.append([ex.submit(run_gosym, job, h, tier, tmp, ov)])
+            # thorough tier: re-discharge selected harnesses with the other solvers and without the byte-domain shortcut
+            xfuts = []
+            if tier == "thorough" and P.get("xcheck"):
+                for job, h, ov in tasks:
+                    if re.search(P["xcheck"], h) and shards_of(job, h) == 1:
+                        xfuts.append((h, "z3-4.8.12", ex.submit(run_gosym, job, h, tier, tmp, ov, "z3")))
+                        xfuts.append((h, "z3-5.1.0 without byte domains", ex.submit(run_gosym, job, h, tier, tmp, ov, "z3-new", None, True)))
             for group in futs:
                 results.append(merge_shards([f.result() for f in group]))
+            cross = []
+            by_h = {r["_harness"]: r for r in results}
+            for h, label, f in xfuts:
+                r2 = f.result()
+                r1 = by_h.get(h)
+                def summ(r):
+                    if not r or r.get("error") or not r.get("harnesses"):
+                        return None
+                    hh = r["harnesses"][0]
+                    return (hh["paths"], hh["paths_ok"], sorted({v["assert"] for v in hh["violations"] or []}), hh["complete"])
+                a, b = summ(r1), summ(r2)
+                cross.append({"harness": h, "against": label, "agree": a == b and a is not None, "paths": a[0] if a else None})
+                if a != b or a is None:
+                    infra.append(f"cross-check disagreement for {h} against {label}: {a} vs {b}")
+            P["_cross"] = cross
         # --- collect
         harness_res = []
         api_mismatch = []
@@ -468,6 +492,10 @@ def write_evidence(prop, tier, seed, P, harness_res, confirmed, mismatches, know
         "witness_replays": {"run": wit_total, "agree": wit_ok},
         "incomplete": infra,
         "outside": P.get("outside", []),
+        "cross_checks": P.get("_cross", []),
+        "catalogue_designs_generated": P.get("_programs"),
+        "designs_compiled": P.get("_compiled"),
+        "generator_histories_compared": P.get("_histories"),
     }
     if level == "model_checking":
         cov.update({"states": max(paths, 0), "transitions": max(queries, 0), "traces_validated_against_impl": wit_ok + len(confirmed)})
